@@ -77,6 +77,15 @@ def plan(tier, seed):
                   rng.integers(1, min(3, n + 1))), replace=False))],
               fail_in="A", exc=pick(rng, ["RuntimeError", "MemoryError",
                                                                  "KeyboardInterrupt"]))
+    # long runs (more than a hundred updates on systems of 120-260 unknowns, as inside a
+    # reconstruction): the A-norm error never increases, the tracked residual is b - A x at
+    # every step, and the right-hand side is read when the solver is built - the in-place
+    # solve ConjugateGradient(A, y, y) and a b buffer re-used by the caller afterwards work
+    for i in range(12 if quick else 120):
+        P.add("cg-long", n=int(rng.integers(120, 260)), cplx=bool(rng.random() < 0.5),
+              cond=float(10 ** rng.uniform(2.5, 3.5)), updates=int(pick(rng, [130, 220])),
+              bmode=pick(rng, ["plain", "b-is-x", "b-overwritten"]),
+              A=pick(rng, ["linop", "func"]), P=pick(rng, ["none", "none", "jacobi"]))
     for i in range(80 if quick else 1200):
         P.add("breakdown", n=int(rng.integers(1, 9)), cplx=bool(rng.random() < 0.5),
               kind=pick(rng, ["negdef", "indef", "singular", "zero"]),
@@ -612,7 +621,71 @@ def run_fault(case):
     return held(sig, {"failed_updates": raised, "counted_updates": len(got) - 1}, checks, True)
 
 
+def run_long(case):
+    import sigpy as sp
+    rng = rng_for(case)
+    n, cplx = case["n"], case["cplx"]
+    dt = np.complex128 if cplx else np.float64
+    M = hpd(rng, n, cplx, "geo", case["cond"])
+    xstar = crandn(rng, [n], dt)
+    b0 = M @ xstar
+    sig = "cg-long|%s|%s|%s|%s" % (case["bmode"], case["A"], case["P"], "c" if cplx else "r")
+    wit = dict(case)
+    Pf = None
+    if case["P"] == "jacobi":
+        dinv = 1 / np.real(np.diag(M))
+        Pf = lambda v: dinv * v                      # noqa: E731
+    A = sp.linop.MatMul([n, 1], M) if case["A"] == "linop" else (lambda v: M @ v)
+    shp = [n, 1] if case["A"] == "linop" else [n]
+    if case["bmode"] == "b-is-x":
+        x = b0.reshape(shp).copy()
+        b = x                                         # in-place solve: start from the data
+        x0 = x.copy()
+    else:
+        b = b0.reshape(shp).copy()
+        x = np.zeros(shp, dt)
+        x0 = x.copy()
+    if Pf is not None and case["A"] == "linop":
+        Pf = sp.linop.Multiply(shp, (1 / np.real(np.diag(M))).reshape(shp))
+    K = case["updates"]
+    alg = sp.alg.ConjugateGradient(A, b, x, P=Pf, max_iter=K + 5, tol=0)
+    if case["bmode"] == "b-overwritten":
+        b[...] = 1e3                                  # the caller re-uses its buffer
+    e_prev = anorm(M, x0.ravel() - xstar)
+    e0 = e_prev
+    scale_r = nrm(b0) + 1e-300
+    checks = 0
+    worst_r = 0.0
+    for k in range(1, K + 1):
+        if alg.done():
+            break
+        alg.update()
+        e = anorm(M, x.ravel() - xstar)
+        checks += 2
+        if not e <= e_prev * (1 + 1e-6) + 1e-9 * e0:
+            return violated(sig, "A-norm error increased at update %d: %.6g -> %.6g (n = %d, "
+                            "right-hand side mode %s)" % (k, e_prev, e, n, case["bmode"]), wit,
+                            mech="long-monotone", obs={"k": k})
+        if k < K + 4 and not getattr(alg, "not_positive_definite", False):
+            rt = np.asarray(alg.r).ravel()
+            dev = nrm(rt - (b0 - M @ x.ravel())) / scale_r
+            worst_r = max(worst_r, dev)
+            if not dev <= 1e-6:
+                return violated(sig, "tracked residual differs from b - A x by %.3g (relative to "
+                                "||b||) after update %d (n = %d, right-hand side mode %s)" % (
+                                    dev, k, n, case["bmode"]), wit, mech="long-residual",
+                                obs={"k": k})
+        e_prev = e
+    if not e_prev <= 1e-3 * e0:
+        return violated(sig, "after %d updates the A-norm error is still %.3g of the initial one "
+                        "(cond %.3g, n = %d)" % (K, e_prev / e0, case["cond"], n), wit,
+                        mech="long-convergence")
+    return held(sig, {"final_rel_err": e_prev / e0, "residual_dev": worst_r}, checks, True)
+
+
 def run_case(case):
+    if case["gen"] == "cg-long":
+        return run_long(case)
     if case["gen"] == "cg-fault":
         return run_fault(case)
     if case["gen"] == "cg-mixed":
